@@ -27,8 +27,8 @@ Package: 'p' name=ID uid=INT ('>' link=[Named:INT])? ('>>' links+=[Named:INT][',
 Class: 'c' name=ID uid=INT ('>' link=[Named:INT])? ('>>' links+=[Named:INT][','])?;
 Named: Package | Class;
 Ref: RefC | RefP | RefN;
-RefC: 'rc' t=[Class:FQN];
-RefP: 'rp' t=[Package:FQN];
+RefC: 'rc' t=[Class:FQN] | 'rcx' t=[Class:FQN];
+RefP: 'rp' t=[Package:FQN] | 'rpx' '(' t=[Package:FQN] ')';
 RefN: 'rn' t=[Named:FQN];
 FQN: ID ('.' ID)*;
 """
